@@ -2078,6 +2078,34 @@ theorem findNewest_synced (names : List Name) (nm : Name) (t : Int) (ht : fnCrea
   congr 2; omega
 
 
+theorem getBTotal_cold (names : List Name) (hne : names ≠ [])
+    (hlast : ∀ last, names.getLast? = some last → cstr last = [46, 100] ∨ ∃ t, fnCreateTime last = some t) :
+    getBTotalWithRetry names 0 = (.ok (names.length : Int), (names.length : Int)) := by
+  unfold getBTotalWithRetry
+  simp only [ne_eq, not_true_eq_false, if_false]
+  cases h : names.getLast? with
+  | none => exact absurd (by simpa using h) hne
+  | some last =>
+    simp only
+    rcases hlast last h with hd | ⟨t, ht⟩
+    · rw [if_pos hd]
+    · split
+      · rfl
+      · rw [ht]
+
+/-- first access after a restart: with the cold total 0 the by-name lookup in front of EditPost / CrossPost
+answers exactly as with the exact total (and leaves the exact total cached). -/
+theorem lookupByName_cold (names : List Name) (nm : Name) (hne : names ≠ [])
+    (hlast : ∀ last, names.getLast? = some last → cstr last = [46, 100] ∨ ∃ t, fnCreateTime last = some t) :
+    lookupByName names 0 nm = lookupByName names names.length nm := by
+  have hlen : (names.length : Int) ≠ 0 := by
+    cases names with
+    | nil => exact absurd rfl hne
+    | cons a l => simp; omega
+  unfold lookupByName
+  rw [getBTotal_cold names hne hlast, getBTotal_nonzero names _ hlen]
+
+
 end Cursor
 
 end PttVerif.C06
